@@ -88,6 +88,7 @@ type richGen struct {
 	used   bool
 	nflows int
 	batch  bool
+	voice  bool // all flows are voice flows, the trigger carries a call
 	feat   map[string]bool
 }
 
@@ -134,6 +135,12 @@ func (g *richGen) action(flowIdx, nodeID, k int) map[string]any {
 		return map[string]any{"uuid": grpCust, "name": "Customers"}
 	}
 	rname := hx.Pick(r, []string{"r0", "r1", "r2", "wh"})
+	if g.voice && r.Chance(1, 4) {
+		if r.Bool() {
+			return set("say_msg", "text", g.text())
+		}
+		return set("play_audio", "audio_url", "http://uploads.temba.io/2353262.m4a?n="+g.tpl())
+	}
 	switch r.Intn(26) {
 	case 0, 1, 2:
 		m := set("send_msg", "text", g.text())
@@ -189,6 +196,9 @@ func (g *richGen) action(flowIdx, nodeID, k int) map[string]any {
 	case 16:
 		return set("add_contact_urn", "scheme", hx.Pick(r, []string{"tel", "twitter", "mailto"}), "path", hx.Pick(r, []string{"+12065550001", "bobby", "x@@y.com", g.tpl()}))
 	case 17:
+		if g.voice {
+			return set("say_msg", "text", g.text(), "audio_url", "http://uploads.temba.io/2353262.m4a")
+		}
 		return set("add_input_labels", "labels", []any{map[string]any{"uuid": lblSpam, "name": "Spam"}})
 	case 18:
 		m := set("open_ticket", "body", g.text(), "result_name", rname)
@@ -314,6 +324,9 @@ func (g *richGen) flows() []any {
 	out := []any{}
 	for i := 1; i <= g.nflows; i++ {
 		ftype := "messaging"
+		if g.voice {
+			ftype = "voice"
+		}
 		nn := r.Range(1, 5)
 		if i > 1 && r.Chance(1, 8) {
 			nn = 0
@@ -462,6 +475,10 @@ func (g *richGen) trigger(contact map[string]any) map[string]any {
 		}
 	}
 	g.feat["trigger:"+t["type"].(string)] = true
+	if g.voice {
+		t["call"] = map[string]any{"channel": map[string]any{"uuid": chanUUID, "name": "Android"}, "urn": "tel:+12024561111"}
+		g.feat["trigger:with-call"] = true
+	}
 	if (t["type"] == "manual" || t["type"] == "flow_action") && g.batch {
 		t["batch"] = true
 	}
@@ -478,14 +495,18 @@ func (g *richGen) trigger(contact map[string]any) map[string]any {
 func (g *richGen) resume(i int, contact map[string]any) map[string]any {
 	r := g.r
 	m := map[string]any{"resumed_on": "2020-01-01T13:00:00.000000000-00:00"}
-	switch r.Intn(10) {
+	k := r.Intn(10)
+	if g.voice && r.Chance(1, 3) {
+		k = 2
+	}
+	switch k {
 	case 0:
 		m["type"] = "wait_timeout"
 	case 1:
 		m["type"] = "run_expiration"
 	case 2:
 		m["type"] = "dial"
-		m["dial"] = map[string]any{"status": "answered", "duration": 5}
+		m["dial"] = map[string]any{"status": hx.Pick(r, []string{"answered", "busy", "no_answer", "failed"}), "duration": 5}
 	default:
 		m["type"] = "msg"
 		m["msg"] = msgJSON(r, i+1)
@@ -515,7 +536,7 @@ func (g *richGen) resume(i int, contact map[string]any) map[string]any {
 func richAssets(flowsJSON []any) []byte {
 	a := map[string]any{
 		"channels": []any{
-			map[string]any{"uuid": chanUUID, "name": "Android", "address": "+17036975131", "schemes": []string{"tel"}, "roles": []string{"send", "receive"}, "country": "US"},
+			map[string]any{"uuid": chanUUID, "name": "Android", "address": "+17036975131", "schemes": []string{"tel"}, "roles": []string{"send", "receive", "call", "answer"}, "country": "US"},
 			map[string]any{"uuid": chan2UUID, "name": "Twitter", "address": "nyaruka", "schemes": []string{"twitter", "twitterid"}, "roles": []string{"send", "receive"}},
 		},
 		"fields": []any{
@@ -549,6 +570,7 @@ func genRich(r *hx.Rand, idx int, seed int64) *Scenario {
 	g := &richGen{r: r, feat: map[string]bool{}}
 	g.exempt = r.Chance(1, 6)
 	g.batch = r.Chance(1, 5)
+	g.voice = r.Chance(1, 6)
 	fl := g.flows()
 	assetsJSON := richAssets(fl)
 	contact := g.contact()
